@@ -100,6 +100,10 @@ unsigned int p1x_fsflags0;
 	 PEA_N_ENTRY_HEALTHY(p1x_off, p1x_e_nl, p1x_e_idx, p1x_e_offs, p1x_e_inum, p1x_e_size, p1x_lim, 4u, \
 			     p1x_incompat, p1x_first_ino, p1x_inodes_count) && \
 	 (unsigned long long) p1x_remain0 >= 16ull + PEA_SIZE(p1x_e_nl) + (p1x_e_inum == 0u ? p1x_e_size : 0u) && \
+	 /* a healthy names list is terminated (kernel: xattr_check_inode): where the space accounting ends the walk \
+	  * behind this entry, the word at the cursor is the zero terminator (since the C02 fix e2fsck checks that too) */ \
+	 ((unsigned long long) p1x_remain0 - (16ull + PEA_SIZE(p1x_e_nl) + (p1x_e_inum == 0u ? p1x_e_size : 0u)) >= 16ull || \
+	  PEA_LE32(header, p1x_off + 16u + PEA_SIZE(p1x_e_nl)) == 0u) && \
 	 (p1x_e_inum == 0u ? PEA_N_HASH_OK_IBODY(p1x_e_hash, P1X_HU(P1X_HOFF + p1x_off), P1X_HS(P1X_HOFF + p1x_off)) \
 			   : (P1X_H3ERR(P1X_HOFF + p1x_off) == 0u && \
 			      PEA_N_EA_INODE_HEALTHY(P1X_TFLAGS(p1x_e_inum), p1x_e_hash, P1X_H3U(P1X_HOFF + p1x_off), \
